@@ -688,6 +688,19 @@ func checkC15(c *hx.Checker) {
 			}
 		}
 	}
+	// the variadic operator with long input lists (tables sized after the largest fixed arity - LSTM's 8 - end there)
+	for _, n := range []int{6, 7, 8, 9, 10, 16, 33} {
+		for _, d := range []string{"float32", "int64", "bool"} {
+			row := make([]string, n)
+			for k := range row {
+				row[k] = d
+			}
+			add("Concat", row)
+			mixed := append([]string{}, row...)
+			mixed[n-1] = "string"
+			add("Concat", mixed)
+		}
+	}
 	// the same lists (homogeneous rows of every length) as sub-slices with spare capacity, and as the second request
 	// gated by one operator object after a longer / shorter / over-long / wrongly typed first request
 	repCasesCached := repCases()
